@@ -364,7 +364,11 @@ func (p *Provider) List(ctx context.Context) ([]*v1.NodeClaim, error) {
 	if call != nil {
 		salt = call.res.salt
 		if call.res.fault == FErrBefore {
-			err := fmt.Errorf("sim: injected list error")
+			// a listing fails as a whole: plain error, or a typed per-instance NotFound bubbling up from describe / convert
+			var err error = fmt.Errorf("sim: injected list error")
+			if call.Idx%2 == 1 {
+				err = cloudprovider.NewNodeClaimNotFoundError(fmt.Errorf("sim: injected list error (instance not found while describing)"))
+			}
 			if t != nil {
 				t.Reads = append(t.Reads, ReadRec{Verb: "cp.list", Kind: "Instance", Err: err, Step: s.step, At: s.Now()})
 			}
